@@ -1,6 +1,7 @@
 //! we are using a thread local proxy coroutine to send the io request
 //!
 
+use std::sync::atomic::{AtomicBool, Ordering};
 use std::sync::Arc;
 
 use crate::coroutine::spawn;
@@ -13,10 +14,13 @@ use generator::{co_get_yield, co_yield_with};
 thread_local! {
     // SAFETY: thread and coroutine would not run in parallel
     pub static ASSOCIATED_IO_RET: Arc<AtomicOption<Box<EventResult>>> = Arc::new(AtomicOption::none());
+    // set by the proxy coroutine when the io request of the thread is finished
+    static ASSOCIATED_IO_DONE: Arc<AtomicBool> = Arc::new(AtomicBool::new(false));
     pub static PROXY_CO_SENDER: Sender<EventSubscriber> = {
         let (tx, rx) = channel();
         let parker = std::thread::current();
         let io_ret = ASSOCIATED_IO_RET.with(|r| { r.clone() });
+        let io_done = ASSOCIATED_IO_DONE.with(|d| { d.clone() });
         // this is a proxy coroutine
         let _co = unsafe { spawn(move || {
             // the coroutine would be gone if the thread exit
@@ -26,9 +30,23 @@ thread_local! {
                     io_ret.store(Box::new(r));
                 }
                 // wake up the master thread
+                io_done.store(true, Ordering::Release);
                 parker.unpark();
             }
         })};
         tx
     };
+}
+
+/// block the current thread until its proxy coroutine has finished the io request.
+/// `park` returns at once when the thread owns a wake-up token that somebody else left
+/// behind (any park/unpark based primitive may do that, e.g. `sync::spsc`) and is allowed
+/// to wake up spuriously, but the `EventSource` must stay alive and no new request must
+/// be sent until the proxy coroutine is done with the current one
+pub fn wait_proxy_co() {
+    ASSOCIATED_IO_DONE.with(|done| {
+        while !done.swap(false, Ordering::Acquire) {
+            std::thread::park();
+        }
+    });
 }
